@@ -22,13 +22,15 @@ ASSUMPTIONS = [
 ]
 
 _CRIT = None
+_TARGETS = None
 RUN_TIMEOUT = 240
 
 
 def worker_init(tier):
-    global _CRIT
+    global _CRIT, _TARGETS
     import kingdon
     _CRIT = sorted({c.co_qualname for c in engine.critical_codes(engine.discover_code())})
+    _TARGETS = [list(x) for x in engine.fault_targets(engine.discover_code())]
 
 
 def directed_files():
@@ -47,7 +49,7 @@ def make_trace(seed, index, tier):
             tr = json.load(f)
         tr.pop('violation', None)
     else:
-        tr = gen_trace10(random.Random(run_seed_of(seed, index)), tier, _CRIT or ())
+        tr = gen_trace10(random.Random(run_seed_of(seed, index)), tier, _CRIT or (), targets=_TARGETS or ())
     tr['seed'] = seed
     tr['run'] = index
     tr['tier'] = tier
